@@ -12,6 +12,8 @@ package memberlist
 // makeCompoundMessage, compressPayload, decompressPayload, decodeCompoundMessage.
 
 import (
+	"os"
+	"syscall"
 	"bytes"
 	"crypto/aes"
 	"crypto/cipher"
@@ -32,6 +34,8 @@ type vwTap struct {
 	dst  []string
 	pk   chan *Packet
 	st   chan net.Conn
+	// the next write is recorded but reported as failed with this error
+	failNext error
 }
 
 func newDiscardLogger() *log.Logger { return log.New(io.Discard, "", 0) }
@@ -46,8 +50,10 @@ func (t *vwTap) WriteTo(b []byte, a string) (time.Time, error) {
 	t.mu.Lock()
 	t.bufs = append(t.bufs, append([]byte(nil), b...))
 	t.dst = append(t.dst, a)
+	err := t.failNext
+	t.failNext = nil
 	t.mu.Unlock()
-	return time.Now(), nil
+	return time.Now(), err
 }
 func (t *vwTap) WriteToAddress(b []byte, a Address) (time.Time, error) { return t.WriteTo(b, a.Addr) }
 func (t *vwTap) PacketCh() <-chan *Packet                               { return t.pk }
@@ -535,20 +541,34 @@ func vwCryptoFailure(r *vfRng, st *vfStats) vfCase {
 	sm, stap, _ := vwNode(s)
 	msg, _ := vwMsg(r)
 	stap.take()
-	saved := crand.Reader
-	crand.Reader = vwFailReader{}
-	sendErr := sm.rawSendMsgPacket(Address{Addr: "10.0.0.1:7946", Name: "x"}, nil, msg)
-	crand.Reader = saved
+	var sendErr error
+	if r.chance(50) {
+		saved := crand.Reader
+		crand.Reader = vwFailReader{}
+		sendErr = sm.rawSendMsgPacket(Address{Addr: "10.0.0.1:7946", Name: "x"}, nil, msg)
+		crand.Reader = saved
+	} else {
+		// the socket refuses the datagram for a moment (ENOBUFS / EAGAIN): whatever is written, then or
+		// on a retry, must be sealed
+		errno := syscall.Errno(r.pick([]int{int(syscall.ENOBUFS), int(syscall.EAGAIN)}))
+		stap.mu.Lock()
+		stap.failNext = &net.OpError{Op: "write", Net: "udp", Err: os.NewSyscallError("sendto", errno)}
+		stap.mu.Unlock()
+		sendErr = sm.rawSendMsgPacket(Address{Addr: "10.0.0.1:7946", Name: "x"}, nil, msg)
+	}
 	bufs, _ := stap.take()
 	c := vfCase{Cfg: vwCfg(5, 1400, s, s, 0, 0)}
 	var wire []byte
 	sealed, leak := true, false
-	if len(bufs) > 0 {
-		wire = bufs[0]
-		body, lab := vwStripLabel(wire)
+	for _, b := range bufs {
+		wire = b
+		body, lab := vwStripLabel(b)
 		_, _, ok := vwAeadEntry(s.keys[0], body, lab)
-		sealed = ok
-		leak = vwLeak(wire, msg)
+		sealed = sealed && ok
+		leak = leak || vwLeak(b, msg)
+		if !ok {
+			break
+		}
 	}
 	c.Ops = [][]int64{vwB(msg), vwB(wire), nil}
 	c.Obs = [][]int64{{0, int64(len(bufs)), vwBool(sealed), vwBool(leak)}}
